@@ -848,7 +848,7 @@ Hdupdd(int32  file_id, /* IN: File ID the tag/refs are in */
 
     /* clear error stack and check validity of file id */
     HEclear();
-    file_rec = HAatom_object(file_id);
+    file_rec = HIfile_rec(file_id);
     if (BADFREC(file_rec))
         HGOTO_ERROR(DFE_ARGS, FAIL);
 
@@ -912,7 +912,7 @@ Hnumber(int32  file_id, /* IN: File ID the tag/refs are in */
     int32      ret_value = SUCCEED;
 
     /* convert file id to file record */
-    file_rec = HAatom_object(file_id);
+    file_rec = HIfile_rec(file_id);
 
     HEclear();
     if (BADFREC(file_rec))
@@ -952,7 +952,7 @@ Hnewref(int32 file_id /* IN: File ID the tag/refs are in */)
 
     /* clear error stack and check validity of file record id */
     HEclear();
-    file_rec = HAatom_object(file_id);
+    file_rec = HIfile_rec(file_id);
     if (BADFREC(file_rec))
         HGOTO_ERROR(DFE_ARGS, 0);
 
@@ -1003,7 +1003,7 @@ Htagnewref(int32  file_id, /* IN: File ID the tag/refs are in */
 
     /* clear error stack and check validity of file record id */
     HEclear();
-    file_rec = HAatom_object(file_id);
+    file_rec = HIfile_rec(file_id);
     if (BADFREC(file_rec))
         HGOTO_ERROR(DFE_ARGS, 0);
 
@@ -1061,7 +1061,7 @@ Hfind(int32   file_id,    /* IN: file ID to search in */
         find_offset == NULL || find_length == NULL || (direction != DF_FORWARD && direction != DF_BACKWARD))
         HGOTO_ERROR(DFE_ARGS, FAIL);
 
-    file_rec = HAatom_object(file_id);
+    file_rec = HIfile_rec(file_id);
     if (BADFREC(file_rec))
         HGOTO_ERROR(DFE_INTERNAL, FAIL);
 
@@ -1115,7 +1115,7 @@ HDcheck_tagref(int32  file_id, /* IN: id of file */
     HEclear();
 
     /* check args */
-    file_rec = HAatom_object(file_id);
+    file_rec = HIfile_rec(file_id);
     if (file_rec == NULL || (tag == DFTAG_NULL || tag == DFTAG_WILDCARD) || ref == DFREF_WILDCARD)
         HGOTO_ERROR(DFE_ARGS, -1);
 
@@ -1170,7 +1170,7 @@ HDreuse_tagref(int32  file_id, /* IN: id of file */
     /* clear error stack and check validity of file record id */
     HEclear();
 
-    file_rec = HAatom_object(file_id);
+    file_rec = HIfile_rec(file_id);
     if (BADFREC(file_rec) || tag == DFTAG_WILDCARD || ref == DFREF_WILDCARD)
         HGOTO_ERROR(DFE_ARGS, FAIL);
 
@@ -1233,7 +1233,7 @@ Hdeldd(int32 file_id, uint16 tag, uint16 ref)
 
     /* clear error stack and check validity of file record id */
     HEclear();
-    file_rec = HAatom_object(file_id);
+    file_rec = HIfile_rec(file_id);
     if (BADFREC(file_rec) || tag == DFTAG_WILDCARD || ref == DFREF_WILDCARD)
         HGOTO_ERROR(DFE_ARGS, FAIL);
 
@@ -1276,7 +1276,7 @@ HTPdump_dds(int32 file_id, FILE *fout)
 
     /* clear error stack and check validity of file record id */
     HEclear();
-    file_rec = HAatom_object(file_id);
+    file_rec = HIfile_rec(file_id);
     if (BADFREC(file_rec))
         HGOTO_ERROR(DFE_ARGS, FAIL);
 
